@@ -10,6 +10,54 @@ PBT = "Hypothesis property-based testing against an independent reference model"
 
 CHECKS = [
     {
+        "id": "C01",
+        "technique": PBT + " (recording / fault-injecting stream double + independent frame validator)",
+        "text": "Generated adversarial streams (valid, bit-damaged, truncated and decoy frames, frames nested in UBX/NMEA/other frames, sync-dense noise) crossed with generated scripts of short and empty reads and all error modes; every delivered pair must be a well-formed frame by the harness's own validator, a contiguous in-order non-overlapping slice of the bytes handed out, with matching payload and message number. Sampled search.",
+        "note": "Trusts the harness's CRC / frame validator; which frames are delivered is left to C02/C05.",
+    },
+    {
+        "id": "C04",
+        "technique": PBT + " / fuzz-style totality oracle (exception whitelist + deterministic stream-call bound); enumeration of all 4096 numbers x short lengths",
+        "text": "Arbitrary and structure-mutated payloads, buffers and streams under every validate / quitonerror combination; the only admissible outcomes are an object, StopIteration or a pyrtcm exception class, the iterator raises nothing in ignore/log modes, and the number of stream calls is bounded (termination). Sampled except for the enumerated short-payload space.",
+        "note": "Termination is decided as a bound on stream calls, not CPU time.",
+    },
+    {
+        "id": "C05",
+        "technique": PBT + " (list model of the stream: undamaged frames, handler / log-record / exception counts)",
+        "text": "Generated streams of valid frames with generated subsets damaged by guaranteed-detectable patterns at generated positions, under ignore / log+handler / log without handler / raise; the reader must return exactly the undamaged frames in order, report once per damaged frame in log mode, never in ignore mode, and in raise mode raise at each damaged frame in event order while the same reader keeps working.",
+        "note": "Damage is confirmed detectable by the harness's CRC reference before use.",
+    },
+    {
+        "id": "C06",
+        "technique": PBT + " with exhaustive enumeration of every whole-byte truncation per generated message; accept/reject differential against the independent interpreter",
+        "text": "For every defined identity, model-built complete payloads are truncated at every byte length down to the identity header and each truncation must be rejected; arbitrary and mutated payloads are accepted iff the independent interpreter (explicit bounds test) does not overrun, with equal values when both accept.",
+        "note": "Complete over cut points per message and over identities; messages themselves are sampled.",
+    },
+    {
+        "id": "C07",
+        "technique": PBT + " round trips against an independent frame builder",
+        "text": "Generated payloads of every defined identity and of unknown numbers at all length classes (2..1023, boundary-biased): serialize() equals the harness's canonical frame, parse/serialize are mutual inverses through the static parser and the stream reader, eval(repr(m)) rebuilds the payload.",
+        "note": "Trusts the harness's frame builder and CRC.",
+    },
+    {
+        "id": "C14",
+        "technique": PBT + " over assignment sequences with full before/after snapshots",
+        "text": "Generated messages of every kind x generated sequences of setattr on public, derived, private, property and fresh names with values of several types; each must raise RTCMMessageError and payload, identity, attributes, str, repr, serialize() and the private dict must be unchanged.",
+        "note": "del / __dict__ pokes / object.__setattr__ are outside the statement.",
+    },
+    {
+        "id": "C15",
+        "technique": "complete enumeration of the 4096 x 256 header space (generated tails) against an arithmetic reference, plus PBT over full payloads of implemented identities",
+        "text": "All 4096 message numbers x all 256 sub-type byte values are constructed on every run (about 1.05 M constructor calls in the quick tier, more tails and versions in thorough); identity, DF002, stub preservation, canonical serialisation and the MSM predicate are judged against an arithmetic reference and a pinned MSM roster.",
+        "note": "Exhaustive over headers; tails are deterministic samples.",
+    },
+    {
+        "id": "C17",
+        "technique": PBT + " differential between reader configurations over a recording stream double",
+        "text": "Generated streams of valid, wrong-CRC and foreign items read under validate x parsed x labelmsm x quitonerror; validate=0 must return every frame decoded as with the right CRC, parsed=False the same raw frames with no objects, and byte accounting per frame must be identical in every configuration.",
+        "note": "No read faults injected here.",
+    },
+    {
         "id": "C02",
         "technique": PBT + " (generator's own list of emitted frames as oracle; BytesIO / BufferedReader / scripted-socket streams)",
         "text": "Generated well-formed sequences of frames of every defined and unknown type (incl. 0/1-byte filler and 1023-byte frames), NMEA, UBX and inert noise, iterated through RTCMReader over three stream kinds with generated segmentation; the returned raw frames must contain every number-carrying frame exactly once, in order, byte for byte, and iteration must stop cleanly. Sampled search; no absence claim.",
